@@ -27,7 +27,7 @@ func init() {
 			"known fixed-length meta events are generated with their spec length (tempo 3 bytes non-zero, etc.)",
 			"header length is 6 (statement)",
 		},
-		Require: []string{"many_unknown_chunk_files", "huge_unknown_chunk_files", "reads_with_eof_delivered_with_data", "files", "feat:running_status", "feat:padded_vlq", "feat:f0_without_f7", "feat:f7_packet", "feat:unknown_meta", "feat:long_payload", "feat:alien_before", "feat:alien_between", "feat:alien_after", "feat:smpte", "decoder_crosschecks", "events_compared", "messages_classified", "pipe_reads", "reads_with_log_option"},
+		Require: []string{"many_unknown_chunk_files", "huge_unknown_chunk_files", "reads_with_eof_delivered_with_data", "files", "feat:running_status", "feat:padded_vlq", "feat:f0_without_f7", "feat:f7_packet", "feat:unknown_meta", "feat:long_payload", "feat:alien_before", "feat:alien_between", "feat:alien_after", "feat:smpte", "decoder_crosschecks", "events_compared", "messages_classified", "pipe_reads", "reads_with_log_option", "appends_to_read_messages"},
 		UsesCur: true,
 		Run:     runC02,
 	})
@@ -97,6 +97,29 @@ func c02Check(c *mon.Ctx, f *ref.EncFile, label string) {
 	if diff := ref.EqualFiles(truth, got); diff != "" {
 		c.Violation("content", fmt.Sprintf("ReadFrom differs from the specification decoder (%s): %s", label, diff), in, describeFile(truth, 30), describeFile(got, 30))
 		return
+	}
+	// the value that was read belongs to the caller: growing one message with append (a player that adds a
+	// terminator, an editor that extends a text) must not reach into any other event of the value
+	if nev > 0 && nev < 4000 && len(b)%2 == 1 {
+		type pos struct{ t, k int }
+		var all []pos
+		for t, tr := range s.Tracks {
+			for k := range tr {
+				all = append(all, pos{t, k})
+			}
+		}
+		for k := len(all) - 1; k > 0; k-- { // fixed pseudo-random order derived from the content
+			j := (k*7919 + len(b)) % (k + 1)
+			all[k], all[j] = all[j], all[k]
+		}
+		for _, q := range all {
+			_ = append(s.Tracks[q.t][q.k].Message, 0x00, 0xFF, 0x2F, 0x00)
+		}
+		c.Count("appends_to_read_messages", int64(len(all)))
+		if diff := ref.EqualFiles(truth, fromLib(s)); diff != "" {
+			c.Violation("read-value-aliased", fmt.Sprintf("after appending four bytes to the messages of the value that was read (in a shuffled order, results discarded) the value itself differs from what was read (%s): %s", label, diff), in, describeFile(truth, 30), describeFile(fromLib(s), 30))
+			return
+		}
 	}
 	// the Log read option must not change what is read
 	if (len(b)%3 == 0 && len(b) < 3000) || (len(b) > 1200 && len(b) < 20000) {
